@@ -164,7 +164,28 @@ func (x *run) stepRemoveChecked(rs *repState, s *sim.Step) error {
 	// then the removal proper: a removal that reports success after that must have removed all of it
 	interrupted := false
 	if s.A%5 == 1 && !strings.HasSuffix(s.K, "cli") && r.C != nil {
-		r.C.ArmErr("any", s.N%5, []int{1, 1000}[s.N/5%2])
+		// the failing call is named by what it is (git-bug walks the remotes in Go map order, so the
+		// number of a call is not a function of the plan): every write refused; the first mutation;
+		// the local ref; the tracking ref of one given remote; the index entry; the cache file
+		everything := s.N%6 == 0
+		switch s.N % 6 {
+		case 0:
+			r.C.ArmErr("any", 0, 1000)
+		case 1:
+			r.C.ArmErr("any", 0, 1)
+		case 2:
+			r.C.ArmErrMatch(`^RemoveRef refs/`+ns+`/`, 1)
+		case 3:
+			rem := "none"
+			if len(remotes) > 0 {
+				rem = regexp.QuoteMeta(remotes[s.N/6%len(remotes)])
+			}
+			r.C.ArmErrMatch(`^RemoveRef refs/remotes/`+rem+`/`+ns+`/`, 1)
+		case 4:
+			r.C.ArmErrMatch(`^index\.Remove`, 1)
+		default:
+			r.C.ArmErrMatch(`^fs\.(Create|Write) cache/`+ns, 1)
+		}
 		err0 := x.guard("remove, interrupted", remove)
 		if r.C.DisarmErr() > 0 {
 			interrupted = true
@@ -173,7 +194,7 @@ func (x *run) stepRemoveChecked(rs *repState, s *sim.Step) error {
 			if err0 == nil {
 				x.probe("io_error_not_reported_by_the_step")
 			}
-			if s.N/5%2 == 1 {
+			if everything {
 				// while every call fails nothing can be cleaned up either: a temporary clock file
 				// left by the interrupted attempt is not the removal's doing
 				for k, v := range x.frameOf(rs).Files {
@@ -403,7 +424,19 @@ func (x *run) stepWipe(rs *repState, s *sim.Step) error {
 	if r.Cache != nil && r.C != nil && s.Id%2 == 0 {
 		// what the wipe command is built on, met by one I/O error: a RemoveAll that reports success
 		// all the same must have removed every bug and identity
-		r.C.ArmErr("any", (s.Id/2+s.N)%8, 1)
+		// (the bugs and the identities are removed by two goroutines, in an order that follows Go map
+		// iteration and a shared permutation stream: the failing call is named by the very ref it
+		// removes, or by the one index or cache file it clears)
+		var pats []string
+		all, _ := r.Raw.ListRefs("refs/")
+		sort.Strings(all)
+		for _, ref := range all {
+			if isGitBugRef(ref) {
+				pats = append(pats, `^RemoveRef `+regexp.QuoteMeta(ref)+`$`)
+			}
+		}
+		pats = append(pats, `^index\.Clear bugs`, `^index\.Clear identities`, `^fs\.(Create|Write) cache/bugs`, `^fs\.(Create|Write) cache/identities`)
+		r.C.ArmErrMatch(pats[(s.Id/2+s.N)%len(pats)], 1)
 		err := r.Cache.RemoveAll()
 		if r.C.DisarmErr() > 0 {
 			x.w.Stats.Fault("ioerr-any")
